@@ -222,6 +222,29 @@ def api(rng, case, idx):
     def same(a, b, tolmul=1.0):
         return H1_same(a, b, tolmul)
     with M.active(case):
+        # ---- molality: 'x m' is x moles of solute per kilogram of *solvent* (SI); per kilogram of solution is another quantity
+        #      (recorded finding KF33: the library reads 'm' as mol/kg of the whole mixture, consistently in every function)
+        if idx % 4 == 0:
+            sol_ = rng.choice(solids)
+            mval = rng.choice([0.5, 1, 2, 0.1, 3])
+            M.count('PARSE.molality')
+            M.bucket('C14/molality')
+            try:
+                made = C.create_solution(sol_, liq, concentration=f'{mval} m', total_quantity=f'{rng.choice([1, 0.5, 2])} kg')
+                mol_ = R.canon(sol_, made.contents.get(sol_, 0.0))
+                kg_solvent = R.canon(liq, made.contents.get(liq, 0.0)) * R.per(liq, 'g') / 1000
+                kg_total = R.measure(made.contents, 'g') / 1000
+                per_solvent, per_solution = mol_ / kg_solvent, mol_ / kg_total
+                if abs(per_solvent - mval) > 1e-6 * mval:
+                    M.violate(['C14'], 'PARSE', 'C14:molality_is_per_kg_of_solution' if abs(per_solution - mval) <= 1e-6 * mval else 'C14:molal_concentration_wrong',
+                              {'stated': f'{mval} m', 'solute': sol_.name, 'molar_mass': sol_.mol_weight, 'mol_per_kg_of_solvent': per_solvent,
+                               'mol_per_kg_of_solution': per_solution})
+                else:
+                    M.note_nontrivial('C14', ('molality', mval, sol_.name))
+            except Exception as e_:   # noqa
+                from pv.monitors import MonitorBug, InjectedFault
+                if isinstance(e_, (MonitorBug, InjectedFault)):
+                    raise
         for trial in range(6):
             base = rng.choice(['L', 'g', 'mol'])
             v = rng.uniform(1e-4, 1)
